@@ -500,6 +500,15 @@ impl JoinPlanner {
             return ir;
         }
 
+        // A Union combines independent rule bodies (one per clause of the head):
+        // plan each input on its own instead of merging all their scans into one
+        // join graph, which would replace the Union by a single join.
+        if let IRNode::Union { inputs } = ir {
+            return IRNode::Union {
+                inputs: inputs.into_iter().map(|i| self.plan_joins(i)).collect(),
+            };
+        }
+
         // Only optimize if there are joins
         if !Self::has_joins(&ir) {
             return ir;
